@@ -1,4 +1,6 @@
 mod g_adss;
+mod g_fp;
+mod g_sharks;
 mod layout;
 mod util;
 
@@ -21,6 +23,8 @@ fn main() {
       let mut out = util::Out::new();
       match prop {
         "C16" => g_adss::gen(seed, thorough, only, &mut out),
+        "C06" => g_sharks::gen(seed, thorough, only, &mut out),
+        "C07" => g_fp::gen(seed, thorough, only, &mut out),
         _ => {
           eprintln!("unknown property {}", prop);
           std::process::exit(2);
